@@ -305,7 +305,126 @@ def c18_explore(g, seed, budget):
     return {"ok": True, "evaluations": n, "distinct": n, "sample": cases[1]}
 
 
+# ------------------------------------------------------------------------------------------------ C11
+def c11_case(g, steps):
+    """CFG operations vs a python set of (id(source), id(target), label) triples"""
+    ir = g.IR(uuid=U(1))
+    m = g.Module(name="m", uuid=U(2), ir=ir)
+    s = g.Section(name="s", uuid=U(3), module=m)
+    bi = g.ByteInterval(uuid=U(4), section=s, size=16)
+    nodes = [g.CodeBlock(uuid=U(10), byte_interval=bi), g.CodeBlock(uuid=U(11), byte_interval=bi, offset=4),
+             g.ProxyBlock(uuid=U(12), module=m), g.ProxyBlock(uuid=U(13))]     # the last one is not attached
+    labels = [None, g.Edge.Label(g.Edge.Type.Branch, False, False), g.Edge.Label(g.Edge.Type.Branch, True, False),
+              g.Edge.Label(g.Edge.Type.Call, False, True), g.Edge.Label(g.Edge.Type.Branch, False, False)]
+    cfg = ir.cfg
+    model = set()
+
+    def mk(e):
+        return g.Edge(nodes[e[0]], nodes[e[1]], labels[e[2]])
+
+    def key(e):
+        return (e[0], e[1], labels[e[2]])
+    errs = []
+    for st in steps:
+        op, arg = st[0], st[1]
+        try:
+            if op == "add":
+                cfg.add(mk(arg)); model.add(key(arg))
+            elif op == "discard":
+                cfg.discard(mk(arg)); model.discard(key(arg))
+            elif op == "remove":
+                try:
+                    cfg.remove(mk(arg)); ok = True
+                except KeyError:
+                    ok = False
+                if ok != (key(arg) in model):
+                    errs.append("remove raised/did not raise KeyError wrongly")
+                model.discard(key(arg))
+            elif op == "pop":
+                try:
+                    e = cfg.pop()
+                    k = (nodes.index(e.source), nodes.index(e.target), e.label)
+                    if k not in model:
+                        errs.append("pop returned a non-member")
+                    model.discard(k)
+                    if e in cfg:
+                        errs.append("popped edge is still a member")
+                except KeyError:
+                    if model:
+                        errs.append("pop raised KeyError on a non-empty CFG")
+            elif op == "clear":
+                cfg.clear(); model.clear()
+            elif op == "update":
+                cfg.update([mk(a) for a in arg]); model |= {key(a) for a in arg}
+            elif op == "ior":
+                cfg |= {mk(a) for a in arg}; model |= {key(a) for a in arg}
+            elif op == "isub":
+                cfg -= {mk(a) for a in arg}; model -= {key(a) for a in arg}
+            elif op == "iand":
+                cfg &= {mk(a) for a in arg}; model &= {key(a) for a in arg}
+            elif op == "ixor":
+                cfg ^= {mk(a) for a in arg}; model ^= {key(a) for a in arg}
+        except Exception as e:
+            errs.append("%s raised %s: %s" % (op, type(e).__name__, e))
+        got = [(nodes.index(e.source), nodes.index(e.target), e.label) for e in cfg]
+        if len(got) != len(set(got)) or set(got) != model:
+            errs.append("iteration %d edges (%d distinct) != model %d after %r" % (len(got), len(set(got)), len(model), st))
+        if len(cfg) != len(model):
+            errs.append("len %d != %d after %r" % (len(cfg), len(model), st))
+        for i in range(len(nodes)):
+            for j in range(len(nodes)):
+                for l in range(len(labels)):
+                    if (mk((i, j, l)) in cfg) != ((i, j, labels[l]) in model):
+                        errs.append("membership of %r wrong after %r" % ((i, j, l), st))
+        for i, n in enumerate(nodes):
+            out = [(nodes.index(e.source), nodes.index(e.target), e.label) for e in cfg.out_edges(n)]
+            inn = [(nodes.index(e.source), nodes.index(e.target), e.label) for e in cfg.in_edges(n)]
+            if sorted(map(repr, out)) != sorted(repr(k) for k in model if k[0] == i):
+                errs.append("out_edges(node %d) wrong after %r" % (i, st))
+            if sorted(map(repr, inn)) != sorted(repr(k) for k in model if k[1] == i):
+                errs.append("in_edges(node %d) wrong after %r" % (i, st))
+            attached = i < 3
+            bo = [(nodes.index(e.source), nodes.index(e.target), e.label) for e in n.outgoing_edges]
+            bi_ = [(nodes.index(e.source), nodes.index(e.target), e.label) for e in n.incoming_edges]
+            if sorted(map(repr, bo)) != (sorted(repr(k) for k in model if k[0] == i) if attached else []):
+                errs.append("block.outgoing_edges(node %d) wrong after %r" % (i, st))
+            if sorted(map(repr, bi_)) != (sorted(repr(k) for k in model if k[1] == i) if attached else []):
+                errs.append("block.incoming_edges(node %d) wrong after %r" % (i, st))
+        if errs:
+            break
+    return errs
+
+
+def c11_explore(g, seed, budget):
+    rng = random.Random(seed)
+    n = 0
+    distinct = set()
+    for _ in range(budget):
+        steps = []
+        for _ in range(rng.randint(1, 10)):
+            op = rng.choice(["add", "add", "add", "discard", "remove", "pop", "clear", "update", "ior", "isub", "iand", "ixor"])
+            e = lambda: [rng.randrange(4), rng.randrange(4), rng.randrange(5)]
+            steps.append([op, e() if op in ("add", "discard", "remove") else
+                          (None if op in ("pop", "clear") else [e() for _ in range(rng.randint(0, 3))])])
+        n += len(steps)
+        distinct.update(json.dumps(s) for s in steps)
+        errs = c11_case(g, steps)
+        if errs:
+            cur = steps
+            i = 0
+            while i < len(cur):
+                cand = cur[:i] + cur[i + 1:]
+                if cand and c11_case(g, cand):
+                    cur = cand
+                else:
+                    i += 1
+            return {"ok": False, "case": {"kind": "C11", "steps": cur}, "errors": c11_case(g, cur)[:4], "evaluations": n}
+    return {"ok": True, "evaluations": n, "distinct": len(distinct), "sample": steps}
+
+
 def run_case(g, case):
+    if case.get("kind") == "C11":
+        return c11_case(g, case["steps"])
     if case.get("kind") == "C19":
         return c19_case(g, case["steps"])
     if case.get("kind") == "C19-static":
@@ -326,7 +445,7 @@ def main(argv):
         return 1 if errs else 0
     prop, seed, budget = argv[1], int(argv[2]), int(argv[3])
     try:
-        res = (c19_explore if prop == "C19" else c18_explore)(gtirb, seed, budget)
+        res = {"C19": c19_explore, "C18": c18_explore, "C11": c11_explore}[prop](gtirb, seed, budget)
     except Exception as e:
         res = {"ok": None, "crash": "%s: %s" % (type(e).__name__, e), "trace": traceback.format_exc()}
     print("RESULT " + json.dumps(res, default=str))
